@@ -1,9 +1,205 @@
 """C14, Roland S-7xx part: one sample's directory record (32 bytes) or parameter record
 (48 bytes) is damaged; every other sample of the performance must still be listed under its
 original name and exported unchanged."""
+import io
 import random
 
+import model as M
 import runner as R
+
+# ------------------------------------------------------------------ correspondence
+# Model (coq/RolandEntries.v) against the real record parser, on every image this module
+# generates.  The format's addresses as the on-disc layout gives them (roland_writer.AREAS);
+# the model's own addresses (id 881) are compared with the seeks the real parser performs.
+SCALE_M = 16            # samples 0..15 of both tables make the scaled-down image
+DIR_AREA, PAR_AREA = 0x0CD800, 0x255800
+
+
+def _scaled(data, cut=None):
+    """directory records 0..M-1 followed by parameter records 0..M-1 (geometry (M, 0, 32 M));
+    `cut` = length of a truncated image: bytes at and after it are missing."""
+    if cut is None:
+        cut = len(data)
+    d = data[DIR_AREA:min(cut, DIR_AREA + 32 * SCALE_M)]
+    p = data[PAR_AREA:min(cut, PAR_AREA + 48 * SCALE_M)] if cut > PAR_AREA else b""
+    return (d + p) if len(d) == 32 * SCALE_M else d
+
+
+SCALED_LAYOUT = [SCALE_M, 0, 32 * SCALE_M, 0, 0, 1, 0]
+
+
+class SeekLog(io.BytesIO):
+    def __init__(self, b):
+        super().__init__(b)
+        self.seeks = []
+
+    def seek(self, off, whence=0):
+        self.seeks.append((off, whence))
+        return super().seek(off, whence)
+
+
+def _note(n):
+    return [int(n.scale_degree), 1 if n.is_sharp else 0, n.octave]
+
+
+def _entry_fields(c):
+    """the fields the model keeps, from the container SampleEntryConstruct returns"""
+    d, p = c.directory, c.parameter
+    pts = [p.start_sample, p.sustain_loop_start, p.sustain_loop_end, p.release_loop_start, p.release_loop_end]
+    return [c.index,
+            [list(d.name.encode("ascii")), int(d.file_type), d.file_attributes, d.fat_entry, d.num_clusters],
+            [list(p.name.encode("ascii")), [x.address for x in pts], [x.fine for x in pts], int(p.loop_mode),
+             p.sustain_loop_enable, p.sustain_loop_tune, p.release_loop_tune, p.cluster_top, p.num_clusters,
+             int(p.sample_options.sample_mode), p.sample_options.sampling_frequency, _note(p.original_key)]]
+
+
+def real_entry(stream, i):
+    """SampleEntryReferenceAdapter's test of the selection, then SampleEntryConstruct (the
+    real construct) on the stream: ('ok', fields) | ('err', class)"""
+    from construct.core import ConstructError
+    from smpl_extract.roland.s7xx.sample_entry import SampleEntryConstruct
+
+    def go():
+        if i < 0:
+            raise ConstructError            # partial_entry.py: selection < 0
+        stream.seek(0)
+        return _entry_fields(SampleEntryConstruct(i).parse_stream(stream))
+    return M.impl_res(go)
+
+
+def real_listing(path):
+    """Through the public object tree: (program names, [(name, safe name, export name, loop mode,
+    addresses, fines, frequency, cluster list)] of the sample files of VOL/PERF in order,
+    sparse link table) or ('err', class)."""
+    image = R.open_image(path)
+    try:
+        perf = image.children[0].children[0]
+        files = perf.files
+        progs, samples = [], []
+        for f in files:
+            if type(f).__name__ == "SampleFile":
+                pts = [f.start_sample, f.sustain_loop_start, f.sustain_loop_end, f.release_loop_start, f.release_loop_end]
+                samples.append([f.name, f.safe_name, f.export_name, int(f.loop_mode), [x.address for x in pts],
+                                [x.fine for x in pts], f.sampling_frequency, list(f._data_stream.sector_list)])
+            else:
+                progs.append([f.name, f.safe_name, f.export_name])
+        fat = perf._fat
+        links = [[k, l.next, 1 if l.end else 0] for k, l in enumerate(fat.sector_links) if not (l.end and l.next == 0)]
+        return ("ok", (progs, samples, [fat.size, links]))
+    except Exception as e:  # noqa
+        return ("err", type(e).__name__)
+    finally:
+        R.close_image(image)
+
+
+def reference_list(d, perf_no=0):
+    """the sample numbers PerformanceEntry.files looks at, from the logical disk: per patch
+    (ascending, once), per partial (ascending, once), the four slots in order, first
+    occurrence per patch; selections < 0 are not references."""
+    out = []
+    for pa in sorted(set(x for x in d.performances[perf_no].patches if x >= 0)):
+        seen = []
+        for pt in sorted(set(x for x in d.patches[pa].partials if x >= 0)) if pa in d.patches else []:
+            for sn in (d.partials[pt].samples if pt in d.partials else []):
+                if sn >= 0 and sn not in seen:
+                    seen.append(sn)
+        out += seen
+    return out
+
+
+def model_entry_out(v):
+    r = M.res(v)
+    return r if r[0] != "ok" else ("ok", r[1])
+
+
+class Deferred:
+    """model calls of one job, evaluated together (one driver process per round)"""
+
+    def __init__(self):
+        self.items = []
+
+    def call(self, fn, arg, then):
+        self.items.append((fn, arg, then))
+
+    def flush(self):
+        while self.items:
+            batch, self.items = self.items, []
+            out = M.call_mixed([(fn, arg) for fn, arg, _ in batch])
+            if len(out) != len(batch):
+                raise RuntimeError("model driver returned %d lines for %d calls" % (len(out), len(batch)))
+            for (_, _, then), r in zip(batch, out):
+                then(r)
+
+
+def correspond(ctx, q, case, data, idx, path=None, full=False, cuts=()):
+    """model vs implementation on one image: every reference of `idx` (plus -1 and the last
+    index of the scaled table), the listing with its cluster lists, the listed names.  The
+    implementation side is evaluated now, the model side when `q` is flushed."""
+    probe = list(dict.fromkeys(list(idx) + [-1, SCALE_M - 1]))
+    st = SeekLog(data)
+    impl = [real_entry(st, i) for i in probe]
+
+    def cmp_entries(rel, cs, indices, impl_):
+        def then(mod):
+            for i, a, b in zip(indices, impl_, mod):
+                ctx.agree(rel, dict(cs, index=i), list(a), _canon(model_entry_out(b)))
+        return then
+    q.call("roland_sample_entry", [SCALED_LAYOUT, _scaled(data), probe], cmp_entries("roland_sample_entry", case, probe, impl))
+    # where the real parser looked
+    i0 = idx[-1] if idx else 0
+    for i in (i0, 0x1FFF):
+        st.seeks.clear()
+        r = real_entry(st, i)
+        seen = [o for o, w in st.seeks if o != 0 and w == 0]
+        # a directory record that fails to parse ends the entry: the parameter record is not visited
+        q.call("roland_record_offsets", i,
+               lambda offs, i=i, seen=seen, r=r: ctx.agree("roland_record_offsets", dict(case, index=i),
+                                                           [seen, len(seen) == 2 or r[0] == "err", len(seen) >= 1],
+                                                           [offs[:len(seen)], True, True]))
+    for cut in cuts:
+        t = SeekLog(data[:cut])
+        ti = [real_entry(t, i) for i in idx]
+        q.call("roland_sample_entry", [SCALED_LAYOUT, _scaled(data, cut), list(idx)],
+               cmp_entries("roland_sample_entry(truncated)", dict(case, cut=cut), list(idx), ti))
+    if path is not None:
+        rl = real_listing(path)
+        if rl[0] == "ok":
+            progs, samples, nl = rl[1]
+
+            def then_listing(v):
+                mv = M.res(v)
+                if mv[0] == "ok":
+                    ml = [[_s(e[1][0]), e[2][3], e[2][1], e[2][2], e[2][10], secs] for e, secs in mv[1]]
+                else:
+                    ml = list(mv)
+                ctx.agree("roland_entries_of", case, [[s[0], s[3], s[4], s[5], s[6], s[7]] for s in samples], ml)
+                if mv[0] == "ok":
+                    elems = [[p[0], 1] for p in progs] + [[_s(e[1][0]), 1] for e, _ in mv[1]]
+                    for which, col, fn in ((0, 1, "make_safe_names"), (1, 2, "make_export_names")):
+                        def then_names(nv, which=which, col=col):
+                            r = M.res(nv)
+                            ctx.agree("roland_listed_names", dict(case, export=which),
+                                      [p[col] for p in progs] + [s[col] for s in samples],
+                                      [_s(n) for n in r[1]] if r[0] == "ok" else list(r))
+                        q.call(fn, elems, then_names)
+            q.call("roland_entries_of", [SCALED_LAYOUT, nl, _scaled(data), list(idx)], then_listing)
+        else:
+            q.call("roland_entries_of", [SCALED_LAYOUT, [65536, []], _scaled(data), list(idx)],
+                   lambda v: ctx.agree("roland_entries_of(raises)", case, list(rl),
+                                       (lambda mv: list(mv[:2]) if mv[0] != "ok" else ["ok"])(M.res(v))))
+    if full:
+        big = [i0, -1, 0x1FFF, 0x2000, 0x2001]
+        bi = [real_entry(st, i) for i in big]
+        q.call("roland_entries_img", [M.Raw(M.enc_image(data)), big], cmp_entries("roland_entries_img", case, big, bi))
+
+
+def _s(codes):
+    return "".join(map(chr, codes))
+
+
+def _canon(r):
+    return [r[0], r[1]] if len(r) > 1 else [r[0]]
+
 
 
 def base_disk(rng):
@@ -25,10 +221,12 @@ def base_disk(rng):
     return d, samples
 
 
-def observe(data):
+def observe(data, hook=None):
     with R.TempImage(data, "r.img") as path:
         l = R.ls(path, "VOL/PERF")
         r, tree, rep = R.export(path)
+        if hook is not None:
+            hook(path)
     names = {}
     lines = l.out.splitlines()
     if len(lines) >= 2 and "Type" in lines[0]:
@@ -60,13 +258,20 @@ def run_job(ctx, tier, job):
     rng = random.Random(job)
     d, samples = base_disk(rng)
     img0 = W.image_bytes(d)
-    names0, tree0, exc0, _ = observe(img0)
+    idx = reference_list(d)
     base_case = {"roland": True, "seed": job, "samples": [d.samples[s].name for s in samples]}
+    q = Deferred()
+    names0, tree0, exc0, _ = observe(img0, lambda path: correspond(ctx, q, dict(base_case, damage=None), img0, idx, path, full=True,
+                                                                   cuts=[DIR_AREA + 32 * idx[-1] + 7, DIR_AREA + 32 * idx[-1] + 20,
+                                                                         PAR_AREA + 48 * idx[1] + 5, PAR_AREA + 48 * idx[1] + 30,
+                                                                         PAR_AREA + 48 * idx[1] + 47, PAR_AREA + 48 * idx[1] + 48]))
     if not ctx.require("undamaged Roland image lists and exports", base_case, exc0 == (None, None) and len(names0) >= len(samples), (exc0, names0)):
+        q.flush()
         return
     k = samples[job % len(samples)]
     victim = d.samples[k].name
     others = [d.samples[s].name for s in samples if s != k]
+    nfull = [0]
     for kind, off, rep, tag in damages(rng, tier):
         d.patches_raw.clear()
         d.patches_raw[(kind, k, off)] = rep
@@ -83,8 +288,10 @@ def run_job(ctx, tier, job):
             except UnicodeDecodeError:
                 new_name = None
         namesake = new_name is not None and new_name.strip() in others
-        names1, tree1, exc1, out1 = observe(data)
         case = dict(base_case, victim=victim, record=kind, offset=off, bytes=rep.hex(), field=tag, namesake=namesake, endflag_in_name=False)
+        nfull[0] += 1
+        names1, tree1, exc1, out1 = observe(data, lambda path: correspond(ctx, q, case, data, idx, path,
+                                                                          full=(tier != "quick" and nfull[0] % 40 == 1)))
         ctx.count("roland_damage", (job, kind, off, rep), nontrivial=True)
         if not ctx.require("ls and export of the damaged image finish without exception", case, exc1 == (None, None), exc1):
             continue
@@ -93,3 +300,68 @@ def run_job(ctx, tier, job):
         bad = [o for o in others if tree1.get("VOL/PERF/%s.wav" % o) != tree0.get("VOL/PERF/%s.wav" % o)]
         ctx.require("every other item's audio is still exported unchanged", case, not bad, bad)
     d.patches_raw.clear()
+    q.flush()
+    corr_job(ctx, tier, job)
+
+
+# ------------------------------------------------------------------ correspondence on a richer tree
+def corr_disk(rng):
+    """two patches sharing a partial, a sample used by several slots, an empty slot in the
+    middle, a reference to an unused table slot (its zero record parses: empty name, start
+    cluster 0), leading clusters: exercises order, per-patch de-duplication, the dropped and
+    the kept references and the counted names ("KICK (2)")."""
+    import roland_writer as W
+    d = W.Disk(fat_version=rng.choice([1, 2]))
+    names = ["KICK", "SNARE", "HAT", "TOM", "BASS", "RIDE"]
+    ss = []
+    for i, nm in enumerate(names):
+        nw = rng.choice([60, 3000, 5000])
+        ss.append(d.add(W.SAMPLE, W.Sample(nm, W.tone(nw, i + 3), loop_mode=rng.randrange(7), freq_code=rng.randrange(6),
+                                           cluster_top=rng.choice([0, 0, 1]), fines=tuple(rng.randrange(256) for _ in range(5)))))
+    unused = 9
+    pa = d.add(W.PARTIAL, W.Partial("PA", [ss[0], ss[1], -1, ss[2]]))
+    pb = d.add(W.PARTIAL, W.Partial("PB", [ss[2], ss[3], unused, ss[0]]))
+    pc = d.add(W.PARTIAL, W.Partial("PC", [ss[4], ss[5]]))
+    x = d.add(W.PATCH, W.Patch("PX", [pa, pb]))
+    y = d.add(W.PATCH, W.Patch("PY", [pb, pc, pb]))
+    pf = d.add(W.PERFORMANCE, W.Performance("PERF", [x, y]))
+    d.add(W.VOLUME, W.Volume("VOL", [pf]))
+    return d, ss + [unused]
+
+
+def corr_damages(rng, n):
+    fields = [("sample_dir", 0, 1), ("sample_dir", 15, 1), ("sample_dir", 16, 2), ("sample_dir", 28, 2), ("sample_dir", 30, 2),
+              ("sample", 0, 16), ("sample", 16, 4), ("sample", 24, 4), ("sample", 36, 1), ("sample", 40, 2), ("sample", 44, 1),
+              ("sample", 45, 1)]
+    for _ in range(n):
+        if rng.random() < 0.6:
+            kind, off, ln = rng.choice(fields)
+        else:
+            kind = rng.choice(["sample_dir", "sample"])
+            size = 32 if kind == "sample_dir" else 48
+            off = rng.randrange(size)
+            ln = rng.randint(1, size - off)
+        yield kind, off, bytes(rng.choice([rng.randrange(256), rng.randrange(128), 0, 0xFF, rng.randrange(8)]) for _ in range(ln))
+
+
+def corr_job(ctx, tier, job):
+    import roland_writer as W
+    rng = random.Random(job * 31 + 5)
+    d, slots = corr_disk(rng)
+    idx = reference_list(d)
+    img0 = W.image_bytes(d)
+    base = {"roland": True, "seed": job, "tree": "shared"}
+    q = Deferred()
+    with R.TempImage(img0, "r.img") as path:
+        correspond(ctx, q, dict(base, damage=None), img0, idx, path)
+    for kind, off, rep in corr_damages(rng, 6 if tier == "quick" else 40):
+        k = rng.choice(slots)
+        d.patches_raw.clear()
+        d.patches_raw[(kind, k, off)] = rep
+        data = W.image_bytes(d)
+        d.patches_raw.clear()
+        case = dict(base, victim_index=k, record=kind, offset=off, bytes=rep.hex())
+        ctx.count("roland_damage_shared_tree", (job, kind, k, off, rep), nontrivial=data != img0)
+        with R.TempImage(data, "r.img") as path:
+            correspond(ctx, q, case, data, idx, path)
+    q.flush()
